@@ -30,5 +30,13 @@ UNIT = {
         {"fn": "unify_partial_string", "within": ("trait", r"trait Unifier : DerefMut < Target = MachineState >"), "file": F_U, "emit_name": "Unifier_unify_partial_string",
          "rewrites": ["strip_head", "name_return", ("index_to_method", "machine_st.heap", "at")] + MAC,
          "wrap_pre": "impl MachineState {\n", "wrap_post": "}\n"},
+        # ---- string iteration (src/machine/partial_string.rs): one step of HeapPStrIter. R7: of the iterator only the heap
+        # reference is read by step()
+        {"block": "enum", "header": r"enum PStrIteratee", "file": "src/machine/partial_string.rs", "rewrites": ["strip_type_head"]},
+        {"block": "struct", "header": r"struct PStrIterStep", "file": "src/machine/partial_string.rs", "rewrites": ["strip_type_head"]},
+        {"fn": "step", "impl": r"impl < 'a > HeapPStrIter < 'a >", "file": "src/machine/partial_string.rs", "emit_name": "HeapPStrIter_step",
+         "rewrites": ["strip_head", "name_return", ("index_to_method", "self.heap", "at"),
+                      ("macro_fn", "debug_assert", "debug_assert_shim", "R18", [1])] + MAC,
+         "wrap_pre": "impl<'a> HeapPStrIter<'a> {\n#[verifier::exec_allows_no_decreases_clause]\n", "wrap_post": "}\n"},
     ],
 }
